@@ -106,6 +106,23 @@ def _json_default(o):
 
 
 _FRESH_N = [0]
+_SETARCH = []
+
+
+def _setarch_works():
+    """`setarch <machine> -R` present and permitted here (the personality call can be filtered in a sandbox)."""
+    if not _SETARCH:
+        import subprocess
+
+        ok = False
+        if os.path.exists("/usr/bin/setarch"):
+            try:
+                ok = subprocess.run(["/usr/bin/setarch", os.uname().machine, "-R", "/bin/true"], stdout=subprocess.DEVNULL,
+                                    stderr=subprocess.DEVNULL, timeout=20).returncode == 0
+            except (OSError, subprocess.SubprocessError):
+                ok = False
+        _SETARCH.append(ok)
+    return _SETARCH[0]
 
 
 def run_fresh(fn, arg, timeout=None):
@@ -128,7 +145,7 @@ def run_fresh(fn, arg, timeout=None):
            "OPENBLAS_NUM_THREADS": "1", "MKL_NUM_THREADS": "1"}
     try:
         cmd = [sys.executable, "-m", "simkit.freshrun", path]
-        if os.path.exists("/usr/bin/setarch"):
+        if _setarch_works():
             # no address-space randomisation: the same allocation sequence then yields the same addresses, so even state
             # keyed on id() of dead objects behaves identically in the sweep, the confirmation and the replay
             cmd = ["/usr/bin/setarch", os.uname().machine, "-R"] + cmd
